@@ -131,7 +131,7 @@ func runC19(c *engine.Ctx) {
 			})
 		}
 	}
-	c.Floor(n, 6)
+	c.Floor(n, 3)
 
 	// ---- R2 stop ----
 	c.Rule("R2", "Wrapper.Stop: closeCh closed, proxy closed, monitor stopped when present, phase Closed, CloseProxy announced; checkWorker returns on closeCh")
